@@ -24,9 +24,10 @@ import yatiml.dumper as ydumper
 from yatiml.dumper import JsonDumperState as St
 from vlib import values
 from vlib.common import (P, SYMBOLIC, T_BOOL, T_FLOAT, T_INT, T_NULL, T_STR,
-                         T_TS, install_stubs, note, pick, plain, slice_no)
+                         T_TS, install_stubs, note, pick, plain, slice_no, tier)
 
 install_stubs(composer=False)
+QUICK = tier() == 'quick'
 
 ENCODED = [
     'yatiml.dumper.Dumper.emit_json, Dumper._do_endline, Dumper.__init__, '
@@ -148,7 +149,8 @@ def _step(depth, s1, s2, s3, cur, req, allow_unicode, ev, tsel, value):
     # s1 = the state on top (depth >= 1); s2 = the one below it (depth == 2)
     stack = [St.NONE]
     if depth == 2:
-        stack.append(pick([St.SEQUENCE, St.MAPPING_VALUE], s2))
+        stack.append(pick([St.SEQUENCE, St.MAPPING_VALUE, St.SEQUENCE_FIRST,
+                           St.MAPPING_KEY, St.MAPPING_KEY_FIRST], s2))
     if depth >= 1:
         stack.append(pick(_STATES, s1))
     top = stack[-1]
@@ -190,8 +192,8 @@ def _step(depth, s1, s2, s3, cur, req, allow_unicode, ev, tsel, value):
 def step(depth: int, s1: int, s2: int, s3: int, cur: int, req: int,
          allow_unicode: bool, ev: int, tsel: int, vs: int) -> bool:
     """
-    pre: 0 <= depth <= 2 and 0 <= s1 < 5 and 0 <= s2 < 2 and s3 == 0
-    pre: 0 <= cur <= 4 and -1 <= req <= 8 and 0 <= ev < 8
+    pre: 0 <= depth <= 2 and 0 <= s1 < 5 and 0 <= s2 < 5 and s3 == 0
+    pre: 0 <= cur <= 6 and -1 <= req <= 8 and 0 <= ev < 8
     pre: 0 <= tsel < 6 and 0 <= vs < 5
     post: __return__
     """
@@ -204,10 +206,10 @@ def step(depth: int, s1: int, s2: int, s3: int, cur: int, req: int,
         return True
     if ev != 0 and (tsel != 0 or vs != 0):
         return True
-    if req not in (-1, 0, 1, 2, 8):
+    if QUICK and (req not in (-1, 0, 1, 2, 8) or s2 > 1 or cur > 4):
         return True
     if ev == 0:
-        if cur not in (0, 2) or req not in (-1, 2):
+        if cur not in (0, 2) or req not in (-1, 2) or s2 > 1:
             return True
         # tag x value: strings/timestamps with every value, the other tags
         # with the one value that makes sense for them
@@ -222,8 +224,8 @@ def step(depth: int, s1: int, s2: int, s3: int, cur: int, req: int,
 def step_reach(depth: int, s1: int, s2: int, s3: int, cur: int, req: int,
                allow_unicode: bool, ev: int, tsel: int, vs: int) -> bool:
     """
-    pre: 0 <= depth <= 2 and 0 <= s1 < 5 and 0 <= s2 < 2 and s3 == 0
-    pre: 0 <= cur <= 4 and -1 <= req <= 8 and 0 <= ev < 8
+    pre: 0 <= depth <= 2 and 0 <= s1 < 5 and 0 <= s2 < 5 and s3 == 0
+    pre: 0 <= cur <= 6 and -1 <= req <= 8 and 0 <= ev < 8
     pre: 0 <= tsel < 6 and 0 <= vs < 5
     post: __return__
     """
@@ -392,7 +394,12 @@ def whole_leaves(sh: int, lf: int, ind: int, ensure_ascii: bool) -> bool:
     pre: 0 <= sh < 24 and 0 <= lf < 30 and -1 <= ind <= 8
     post: __return__
     """
-    if sh not in (0, 3, 5, 23, 17) or ind not in (-1, 0, 2):
+    if ind not in (-1, 0, 2):
+        return True
+    if QUICK and sh not in (0, 3, 5, 23, 17):
+        return True
+    s = slice_no(-1)
+    if s >= 0 and sh % 4 != s:
         return True
     r = _whole(sh, lf, ind, ensure_ascii)
     return True if r is None else r
@@ -471,8 +478,9 @@ _RELOAD_MODELS = [values.MODEL_IDX[n] for n in
 CONDITIONS = [
     {'fn': 'step', 'slices': list(range(8)), 'quick': 110, 'thorough': 400,
      'bound': 'one slice per event kind: top state over 5 states or NONE, '
-              'optionally one more entry below (invariant: well-nested), '
-              '_cur_indent 0..4, indent None/0/1/2/8, allow_unicode, scalar '
+              'optionally one more entry below (5 states; quick 2) '
+              '(invariant: well-nested), _cur_indent 0..6 (quick 0..4), '
+              'indent None/0..8 (quick None/0/1/2/8), allow_unicode, scalar '
               'tag out of 6 with one of 5 values'},
     {'fn': 'step_reach', 'quick': 60, 'thorough': 60, 'expect': 'REFUTED',
      'bound': 'reachability twin of step'},
@@ -480,9 +488,10 @@ CONDITIONS = [
      'twin': 'whole_reach',
      'bound': '24 tree shapes x indent None/0..8 x ensure_ascii with a plain '
               'string leaf'},
-    {'fn': 'whole_leaves', 'quick': 110, 'thorough': 300,
-     'bound': '5 shapes (leaf, [leaf], {k: leaf}, {leaf: 1}, nested) x 30 '
-              'leaves x indent None/0/2 x ensure_ascii'},
+    {'fn': 'whole_leaves', 'slices': [0, 1, 2, 3], 'quick': 110,
+     'thorough': 400,
+     'bound': '24 shapes (quick: 5 -- leaf, [leaf], {k: leaf}, {leaf: 1}, '
+              'nested) x 30 leaves x indent None/0/2 x ensure_ascii'},
     {'fn': 'reload', 'slices': _RELOAD_MODELS, 'quick': 110, 'thorough': 300,
      'bound': 'one slice per class model: every alternative of every factor '
               '(printable BMP, finite, no dates) x (compact ASCII | indent 2 '
